@@ -319,39 +319,63 @@ def check_route_totality(idx: Index, rep: Report):
 
 
 # ---------------------------------------------------------------------------------------------------
+class _BitArray:
+    """checker-side model of bitarray('0101'): bitwise and, to01(), count()"""
+    _sa_model = True
+
+    def __init__(self, s):
+        self.s = "".join(str(c) for c in s) if not isinstance(s, str) else s
+
+    def __and__(self, other):
+        return _BitArray("".join("1" if a == "1" and b == "1" else "0" for a, b in zip(self.s, other.s)))
+
+    def __or__(self, other):
+        return _BitArray("".join("1" if a == "1" or b == "1" else "0" for a, b in zip(self.s, other.s)))
+
+    def __xor__(self, other):
+        return _BitArray("".join("1" if a != b else "0" for a, b in zip(self.s, other.s)))
+
+    def to01(self):
+        return self.s
+
+    def count(self, v=1):
+        return self.s.count("1" if v in (1, "1", True) else "0")
+
+
 def check_parity_skeleton(idx: Index, rep: Report):
+    """the per-term estimators folded on a four-outcome histogram with symbolic frequencies: the expectation is the signed sum with
+    sign = parity of the outcome bits on the term's qubits, the variance the frequency-weighted squared deviation from it"""
     rule = "K9.parity-estimator"
-    for fn in ("get_expectation_value_from_frequencies_oneterm", "get_variance_from_frequencies_oneterm"):
-        f = idx.function(f"{BACKEND}::{fn}")
-        txt = full(f.node)
-        mask_loop = [n for n in own_nodes(f.node) if isinstance(n, ast.For) and norm(n.iter) == "term"]
-        ok = bool(mask_loop) and any(isinstance(s, ast.Assign) and norm(s.targets[0]) == "mask[index]" and norm(s.value) == "'1'" for s in mask_loop[0].body) \
-            and "mask = ['0'] * n_qubits" in txt
-        rep.decide(ok, rule, f, mask_loop[0] if mask_loop else f.node, text=f"{fn}: mask has '1' exactly on the term's qubits",
-                   what="the mask selects exactly the qubits the Pauli word acts on", reason="mask construction changed")
-        samples = [n for n in own_nodes(f.node) if isinstance(n, ast.Assign) and norm(n.targets[0]) == "sample"]
-        ok = bool(samples) and norm(samples[0].value).replace(" ", "") in (
-            "(-1)**((bitarray(mask)&bitarray(basis_state)).to01().count('1')%2)",
-            "(-1)**(bitarray(mask)&bitarray(basis_state)).to01().count('1')",
-            "(-1)**(bitarray(mask)&bitarray(basis_state)).count(1)",
-            "(-1)**((bitarray(mask)&bitarray(basis_state)).count(1)%2)")
-        rep.decide(ok, rule, f, samples[0] if samples else f.node, text=f"{fn}: sample = (-1)^popcount(mask & outcome)",
-                   what="the eigenvalue of an outcome is the parity of the outcome bits on the term's qubits",
-                   reason=f"sample computed as {norm(samples[0].value) if samples else '?'}")
-    f = idx.function(f"{BACKEND}::get_expectation_value_from_frequencies_oneterm")
-    acc = [n for n in own_nodes(f.node) if isinstance(n, ast.AugAssign) and norm(n.target) == "expectation_term"]
-    ok = bool(acc) and isinstance(acc[0].op, ast.Add) and norm(acc[0].value) in ("sample * freq", "freq * sample")
-    rep.decide(ok, rule, f, acc[0] if acc else f.node, text="expectation += sample * frequency", what="the estimate is the frequency-weighted sum of eigenvalues",
-               reason=f"accumulation {norm(acc[0]) if acc else '?'}")
-    f = idx.function(f"{BACKEND}::get_variance_from_frequencies_oneterm")
-    acc = [n for n in own_nodes(f.node) if isinstance(n, ast.AugAssign) and norm(n.target) == "variance_term"]
-    ok = False
-    if acc:
+    from ..rules import circuitsem as cs
+    f0, f1, f2, f3 = sp.symbols("f0 f1 f2 f3", positive=True)
+    freqs = {"000": f0, "101": f1, "100": f2, "111": f3}
+    cases = [(((0, "Z"), (2, "Z")), f0 + f1 - f2 + f3, "Z0 Z2"), (((1, "X"),), f0 + f1 + f2 - f3, "X1 (already rotated)"),
+             (((0, "Z"), (1, "Y"), (2, "Z")), f0 + f1 - f2 - f3, "Z0 Y1 Z2"), ((), f0 + f1 + f2 + f3, "identity")]
+    fe = idx.function(f"{BACKEND}::get_expectation_value_from_frequencies_oneterm")
+    fv = idx.function(f"{BACKEND}::get_variance_from_frequencies_oneterm")
+
+    def fold(fn, term):
+        fo = cs.make_folder(idx, BACKEND)
+        fo.ctors["bitarray"] = lambda a, k: _BitArray(a[0])
         try:
-            fr, ex, sa = sp.symbols("freq expectation_term sample")
-            v = symx.to_sympy(acc[0].value)
-            ok = symx.equal(v, sp.Symbol("freq", real=True) * (sp.Symbol("expectation_term", real=True) - sp.Symbol("sample", real=True)) ** 2)
-        except symx.Untranslatable:
-            ok = False
-    rep.decide(ok, rule, f, acc[0] if acc else f.node, text="variance += freq * (mean - sample)^2", what="the variance is the frequency-weighted squared deviation",
-               reason=f"accumulation {norm(acc[0]) if acc else '?'}")
+            return fo.run_function(fn.node, {"term": term, "frequencies": dict(freqs)})
+        except (Undecidable, Raised) as e:
+            raise AnalysisError(f"{fn.ref} not foldable: {e}")
+    for term, want, label in cases:
+        got = fold(fe, term)
+        ok = sp.simplify(sp.sympify(got) - want) == 0
+        rep.decide(ok, rule, fe, fe.node, text=f"<{label}> over {{000, 101, 100, 111}} = {want}",
+                   what="each outcome contributes its frequency times (-1)^(number of 1s on the term's qubits)", reason=f"folded estimator gives {got}")
+        gv = fold(fv, term)
+        wantv = sum(fr * (want - sgn) ** 2 for fr, sgn in zip((f0, f1, f2, f3), _signs(term)))
+        ok = sp.simplify(sp.expand(sp.sympify(gv) - wantv)) == 0
+        rep.decide(ok, rule, fv, fv.node, text=f"Var<{label}> = sum f (mean - sample)^2", what="the variance is the frequency-weighted squared deviation of the eigenvalue from the mean",
+                   reason=f"folded variance gives {gv}")
+
+
+def _signs(term):
+    out = []
+    for key in ("000", "101", "100", "111"):
+        ones = sum(1 for q, _ in term if key[q] == "1")
+        out.append(-1 if ones % 2 else 1)
+    return out
